@@ -52,6 +52,10 @@ def tasks(tier, seed):
             for gap in ("exploitability", "l1_norm"):
                 if not (s == "greedy" and not K and gap == "exploitability"):
                     add("solver", 3, K, s, gap)
+    for K in fam3:                      # hidden games of any class (rewards may be positive, ties are rarer)
+        if len(K) < 3:
+            for s in ("greedy", "greedy_worst"):
+                add("solver", 3, K, s, "exploitability", anyclass=True)
     fam4, _ = F.family(4, tier, seed)
     small = [k for k in fam4 if len(k) <= 2]
     pick = (small + F.sample(fam4, 64, seed, "c13n4")) if tier == "thorough" else (F.sample(small, 12, seed, "c13s") + F.sample([k for k in fam4 if 3 <= len(k) <= 8], 12, seed, "c13m"))
@@ -77,7 +81,8 @@ def setup(params, inp, lg):
     n = params["n"]
     ass = []
     for j in range(1, 6):
-        ass += F.sa_constraints(_draw(inp, j, n), n, lg)
+        if not params.get("anyclass"):
+            ass += F.sa_constraints(_draw(inp, j, n), n, lg)
     return ass
 
 
